@@ -120,7 +120,7 @@ type QuerySpec struct {
 	Count  bool   `json:"count,omitempty"`
 	Rev    bool   `json:"rev,omitempty"`
 	Filter string `json:"filter,omitempty"`
-	Up     bool   `json:"up,omitempty"` // filter addresses in the upper-case bech32 spelling
+	Up     bool   `json:"up,omitempty"`     // filter addresses in the upper-case bech32 spelling
 	MidTx  int    `json:"mid_tx,omitempty"` // issue before the k-th tx (0 = at block start after BeginBlock)
 }
 
